@@ -248,3 +248,33 @@ Proof.
   destruct (resolve_parents _ _) as [ps|]; [|discriminate].
   destruct (acyclic ps) eqn:E; [|discriminate]. intros H. inversion H; subst. exact E.
 Qed.
+
+(* ---------- the clauses of the property as corollaries of the decision table ---------- *)
+(* an allowlist alone: built iff the builder or one of its ancestors is listed *)
+Corollary allowlist_alone t ctx l : wf_tree t ->
+  is_allowed t ctx None (Some l) =
+  Ok (if match nearest t ctx (Some l) with Some _ => true | None => false end then Allowed else Blocked).
+Proof.
+  intros W. rewrite (is_allowed_decide t ctx None (Some l) W). cbn [decide nearest].
+  destruct (fold_left pick (entries t ctx l) None); reflexivity.
+Qed.
+
+Corollary allowlist_alone_blocks_iff t ctx l : wf_tree t ->
+  (is_allowed t ctx None (Some l) = Ok Blocked <-> forall n, In n l -> entry t ctx n = None).
+Proof.
+  intros W. rewrite (allowlist_alone t ctx l W). rewrite <- nearest_none.
+  destruct (nearest t ctx (Some l)) as [p|]; split; intros E; try reflexivity; try discriminate.
+Qed.
+
+(* an empty allowlist: built for no builder *)
+Corollary empty_allowlist_builds_nowhere t ctx : wf_tree t -> is_allowed t ctx None (Some []) = Ok Blocked.
+Proof. intros W. apply allowlist_alone_blocks_iff; [exact W|intros n []]. Qed.
+
+(* a blocklist alone: not built iff the builder or one of its ancestors is listed *)
+Corollary blocklist_alone_allows_iff t ctx l : wf_tree t ->
+  (is_allowed t ctx (Some l) None = Ok Allowed <-> forall n, In n l -> entry t ctx n = None).
+Proof.
+  intros W. rewrite (is_allowed_decide t ctx (Some l) None W). cbn [decide]. rewrite <- nearest_none.
+  destruct (nearest t ctx (Some l)) as [[bi bd]|]; split; intros E; try reflexivity; try discriminate.
+  unfold ba_block in E. destruct bd; discriminate.
+Qed.
